@@ -21,6 +21,10 @@ def bytesLt : Bytes → Bytes → Bool
 
 def strBytes (s : String) : Bytes := s.toUTF8.toList
 
+/-- the placeholder file name "-" and the text "EOF" as byte literals (kernel-reducible) -/
+def bDash : Bytes := [45]
+def bEOF : Bytes := [69, 79, 70]
+
 /-- decimal rendering of a natural number as bytes (std::to_string on non-negative ints) -/
 def natDigits (n : Nat) : Bytes := (Nat.toDigits 10 n).map (fun c => c.toNat.toUInt8)
 
